@@ -120,6 +120,11 @@ impl FormMultipartData {
             }
 
             if bytes_read == total_bytes as i128 {
+                if part.headers.len() != 0 || !current_string_is_empty {
+                    // end of the payload in the middle of a part, headers are read but there is no body and no end boundary
+                    let message = "No end boundary present in the multipart/form-data request body";
+                    return Err(message.to_string());
+                }
                 return Ok(part_list)
             }
 
